@@ -27,8 +27,9 @@ Inductive sop :=
 | SUnpause (d : nat)
 | SCancel (d : nat).
 
-(** run the script, then behave as [b] *)
-Inductive rbeh := RB (script : list sop) (b : beh).
+(** [RB script b]: run the script, then behave as [b].
+    [RChain d]: the pair [chainDeferred(d)] adds — [d.callback] / [d.errback] called with the argument; returns None *)
+Inductive rbeh := RB (script : list sop) (b : beh) | RChain (d : nat).
 
 Inductive rentry := RPair (k : nat) (cb eb : option rbeh) | RCont (c : nat).
 
@@ -222,6 +223,15 @@ Section WithNestedWalks.
                     | Some (s1, l, x) =>
                         let s2 := with_heap s1 (rupd (rheap_of s1) cur (rset_running false)) in
                         Some (s2, ERun cur k r :: l, match x with Some e => VFail e | None => apply_beh b r end)
+                    end
+                | Some (RChain d2) =>
+                    (* d2.callback(r) / d2.errback(r); not one of the instrumented user callbacks: no ERun *)
+                    let sg := with_heap s (rupd h0 cur (rset_running true)) in
+                    match fire_r sg d2 r ByUser with
+                    | None => None
+                    | Some (s1, l, fk) =>
+                        let s2 := with_heap s1 (rupd (rheap_of s1) cur (rset_running false)) in
+                        Some (s2, l, match fire_exc fk with Some e => VFail e | None => VNone end)
                     end
                 end in
               match called_ with
